@@ -47,6 +47,7 @@ type tnode struct {
 	stalled  bool
 	closed   bool // we asked for it (or an ancestor) to be closed
 	evclosed bool
+	ft       *kv.Term // the filter last given to this node (nil: none yet / a plain node)
 }
 
 type treeWorld struct {
@@ -246,6 +247,9 @@ func (w *treeWorld) attachAs(p *tnode, kind string, ft kv.Term) {
 		w.tr.line(kv.L("attach-error", fmt.Sprint(n.id), fmt.Sprint(p.id), kind))
 		return
 	}
+	if kind == "subf" || kind == "clonef" {
+		n.ft = &ft
+	}
 	w.nodes = append(w.nodes, n)
 	w.tr.line(kv.L("attach", fmt.Sprint(n.id), fmt.Sprint(p.id), kind, fsx))
 	w.tr.stats["act:attach-"+kind]++
@@ -389,6 +393,47 @@ func (w *treeWorld) pausedAttach() {
 	w.tr.stats["act:paused-attach"]++
 }
 
+// lateMonitor: an object leaves a filtered publisher's view (an update its filter rejects), nothing else happens,
+// and only then a monitor is attached below: its OnInitialize must not list the object any more
+func (w *treeWorld) lateMonitor() {
+	if len(w.nodes) >= 9 {
+		return
+	}
+	type cand struct {
+		n *tnode
+		o kv.Obj
+	}
+	var cs []cand
+	for _, n := range w.nodes {
+		if n.pub == nil || n.closed || n.ft == nil || !isClosed(n.ready) || isClosed(n.done) {
+			continue
+		}
+		l, err := n.cache.List()
+		if err != nil {
+			continue
+		}
+		f := n.ft.Build()
+		for _, m := range l {
+			o := kv.Describe(m)
+			for _, ls := range treeLabels {
+				alt := kv.Obj{Kind: "pod", NS: o.NS, Name: o.Name, Labels: ls}
+				if !f.Accept(alt.Build()) {
+					cs = append(cs, cand{n, alt})
+				}
+			}
+		}
+	}
+	if len(cs) == 0 {
+		return
+	}
+	c := kv.Pick(w.r, cs)
+	o := w.srv.Apply(watch.Modified, c.o)
+	w.tr.line(kv.L("srv", "update", o.Sx()))
+	w.wait() // quiescence, but nobody looks at anything
+	w.attachAs(c.n, "mon", kv.Term{Op: "null"})
+	w.tr.stats["act:late-monitor"]++
+}
+
 // flood: up to EventBufsiz/4 server events without waiting in between
 func (w *treeWorld) flood() {
 	for j := inflight(10 + w.r.Intn(15)); j > 0; j-- {
@@ -492,6 +537,7 @@ func (w *treeWorld) refilterVolley() {
 }
 
 func (w *treeWorld) refilterAs(n *tnode, ft kv.Term) {
+	n.ft = &ft
 	w.tr.line(kv.L("refilter", fmt.Sprint(n.id), ft.Sx()))
 	n.refil(ft.Build())
 	w.tr.stats["act:refilter"]++
@@ -745,7 +791,7 @@ func runTreeScenario(t *testing.T, tr *tracer, idx int, seed uint64, mode string
 		if err != nil {
 			t.Fatal(err)
 		}
-		w.nodes = append(w.nodes, &tnode{id: 0, kind: "root", pub: root, ready: root.Ready(), done: root.Done(), cache: root.Cache(), closefn: root.Close})
+		w.nodes = append(w.nodes, &tnode{id: 0, kind: "root", pub: root, ready: root.Ready(), done: root.Done(), cache: root.Cache(), closefn: root.Close, ft: &rootF})
 		tr.line(kv.L("start", rootF.Sx(), kv.Bool(gated)))
 		w.wait()
 		w.observe()
@@ -868,6 +914,8 @@ func runTreeScenario(t *testing.T, tr *tracer, idx int, seed uint64, mode string
 				continue
 			}
 			switch x := r.Intn(100); {
+			case x < 3 && mode == "step":
+				w.step(w.lateMonitor)
 			case x < 38:
 				w.step(w.srvEvent)
 			case x < 62:
